@@ -1,7 +1,7 @@
 (* C20 — property theorems only.  Each is closed by `exact <lemma>` (or by computation for the closed
    examples) and followed by Print Assumptions; the check re-compiles this file on every run. *)
 From Coq Require Import List NArith Bool.
-From MW Require Import C20.FsTrace C20.Model C20.Proofs C20.ProofsBuffered C20.ModelMove C20.ProofsMove C20.Gen_Sites C20.ProofsSites.
+From MW Require Import C20.FsTrace C20.Model C20.Proofs C20.ProofsBuffered C20.ModelMove C20.ProofsMove C20.Gen_Sites C20.ProofsSites C20.ModelShort C20.ProofsShort.
 Import ListNotations.
 
 (* If the recogniser accepts the trace t of a producer then, from ANY initial file system with nothing
@@ -246,3 +246,87 @@ Print Assumptions C20_repo_sites_safe.
 Theorem C20_repo_sites_found : length sites = 3.
 Proof. exact repo_sites_nonempty. Qed.
 Print Assumptions C20_repo_sites_found.
+
+(* ---- SHORT WRITES: write(2) stores fewer bytes than asked and reports the count, no error (almost full disk, quota,
+   file-size limit).  In a trace this is just a Write op with fewer bytes (C20_write_granularity_irrelevant); what it
+   changes is the producer.  wres = outcome of one write call (all / only k bytes / error); write_all = the loop of
+   CPython's io stack (call write(2) with what is left until nothing is left or a call fails);
+   producer_checked = open temp, write_all, close, rename only when write_all succeeded (status.py as it is);
+   producer_unchecked = one os.write whose result is ignored, fsync, close, rename (seeded/C20-8). (ModelShort.v) *)
+
+(* the write-all producer is in the proved language for every payload and EVERY sequence of write outcomes *)
+Theorem C20_short_write_checked_accepted : forall f payload outs,
+  safe_publish FINAL (producer_checked f payload outs) = true.
+Proof. exact short_checked_accepted. Qed.
+Print Assumptions C20_short_write_checked_accepted.
+
+(* ... after the complete run FINAL holds exactly the payload when every byte was stored and is untouched when a call
+   failed, however many calls were cut short before *)
+Theorem C20_short_write_checked_publishes : forall f payload outs s0,
+  names s0 TEMP = None -> fds s0 f = None -> (forall i, names s0 FINAL = Some i -> i < next s0) ->
+  content_at (run (producer_checked f payload outs) s0) FINAL =
+  if snd (write_all f payload outs) then Some payload else content_at s0 FINAL.
+Proof. exact short_checked_publishes. Qed.
+Print Assumptions C20_short_write_checked_publishes.
+
+(* ... and every killed prefix of it shows absent / old / a published complete version *)
+Theorem C20_short_write_checked_crash_safe : forall f payload outs s0,
+  quiescent s0 ->
+  forall k, let s := run (firstn k (producer_checked f payload outs)) s0 in
+    content_at s FINAL = None \/ content_at s FINAL = content_at s0 FINAL \/
+    exists c, content_at s FINAL = Some c /\ published_before FINAL (producer_checked f payload outs) s0 k c.
+Proof. exact short_checked_crash_safe. Qed.
+Print Assumptions C20_short_write_checked_crash_safe.
+
+(* the unchecked single write: the recogniser ACCEPTS its trace for every outcome (nobody writes to FINAL, the temp
+   file is closed before the rename) - the recogniser speaks about who writes where, not about what was meant ... *)
+Theorem C20_short_write_unchecked_accepted : forall f payload r,
+  safe_publish FINAL (producer_unchecked f payload r) = true.
+Proof. exact short_unchecked_accepted. Qed.
+Print Assumptions C20_short_write_unchecked_accepted.
+
+(* ... and yet ONE short write makes it publish a strict prefix of the payload, with no failed syscall in the trace:
+   this regression class is the reader oracle's (run under real short writes), not the recogniser's *)
+Theorem C20_short_write_unchecked_refuted : forall f payload k s0,
+  names s0 TEMP = None -> fds s0 f = None -> k < length payload ->
+  content_at (run (producer_unchecked f payload (WShort k)) s0) FINAL = Some (firstn k payload) /\
+  firstn k payload <> payload /\
+  Forall (fun o => match o with Write _ _ false | Close _ false | Rename _ _ false | Fsync _ false => False | _ => True end)
+         (producer_unchecked f payload (WShort k)).
+Proof. exact short_unchecked_exposes_prefix. Qed.
+Print Assumptions C20_short_write_unchecked_refuted.
+
+(* a FAILING write is handled by the unchecked form too (os.write raises): the seed only shows under short writes *)
+Theorem C20_short_write_unchecked_error_safe : forall f payload s0,
+  names s0 TEMP = None -> fds s0 f = None -> (forall i, names s0 FINAL = Some i -> i < next s0) ->
+  content_at (run (producer_unchecked f payload WErr) s0) FINAL = content_at s0 FINAL.
+Proof. exact short_unchecked_error_safe. Qed.
+Print Assumptions C20_short_write_unchecked_error_safe.
+
+(* the recogniser's verdict does not depend on how many bytes a write stored or whether it succeeded; the soundness
+   theorem quantifies over all traces with the bytes ACTUALLY written, so short writes are inside it unchanged *)
+Theorem C20_recogniser_blind_to_write_outcome : forall final t1 t2 f a b ok ok',
+  safe_publish final (t1 ++ Write f a ok :: t2) = safe_publish final (t1 ++ Write f b ok' :: t2).
+Proof. exact safe_publish_write_blind. Qed.
+Print Assumptions C20_recogniser_blind_to_write_outcome.
+
+(* the model's short write: the first k bytes are appended and the offset moves by k *)
+Theorem C20_short_write_effect : forall s f i bs k,
+  fds s f = Some (mkfd i true false (length (idata s i))) ->
+  let s' := step s (Write f (firstn k bs) true) in
+  idata s' i = idata s i ++ firstn k bs /\ names s' = names s /\
+  fds s' f = Some (mkfd i true false (length (idata s i) + length (firstn k bs))).
+Proof. exact short_write_effect. Qed.
+Print Assumptions C20_short_write_effect.
+
+(* non-vacuity: a 5-byte payload, the kernel stores 2 bytes, then 1, then the rest: three writes, payload published;
+   2 bytes then an error: nothing published; the unchecked form with the first outcome alone publishes 2 bytes *)
+Example C20_short_write_concrete :
+  producer_checked 3%N [1; 2; 3; 4; 5]%N [WShort 2; WShort 1] =
+    [Openat TEMP fl_w 3%N true; Write 3%N [1; 2]%N true; Write 3%N [3]%N true; Write 3%N [4; 5]%N true; Close 3%N true;
+     Rename TEMP FINAL true] /\
+  content_at (run (producer_checked 3%N [1; 2; 3; 4; 5]%N [WShort 2; WShort 1]) fs_old) FINAL = Some [1; 2; 3; 4; 5]%N /\
+  content_at (run (producer_checked 3%N [1; 2; 3; 4; 5]%N [WShort 2; WErr]) fs_old) FINAL = Some old_bytes /\
+  content_at (run (producer_unchecked 3%N [1; 2; 3; 4; 5]%N (WShort 2)) fs_old) FINAL = Some [1; 2]%N.
+Proof. vm_compute. repeat split. Qed.
+Print Assumptions C20_short_write_concrete.
